@@ -351,6 +351,107 @@ class Expect(Contract):
             [('C20:accepted-only-patterns', True if pats is None else (forall(0, pats.len, lambda k: acceptable(pats.get(k), kind)) if is_listlike(pats) else acceptable(pats, kind)))]
 
 
+# ---- expect_exact -----------------------------------------------------------------------------------------------
+def exact_acceptable(u, kind):
+    """expect_exact: strings and the two markers (a compiled regex is not an exact string)"""
+    u = as_union(u, kind)
+    ok = Or(u.is_('native'), u.is_('eof'), u.is_('timeout'))
+    return Or(ok, u.is_('other')) if kind == 'b' else ok
+
+
+def exact_image_ok(p, u, kind):
+    """prepared element p is what source element u stands for: the marker itself, or the same text in the native type"""
+    u = as_union(u, kind)
+    pv = pat_val(p)
+    if isinstance(pv, ClassConst):
+        val_ok = False
+    else:
+        val_ok = ite(u.is_('native'), eq(pv, u.val('native')), eq(pv, u.val('other'))) if isinstance(u, Union) else eq(pv, u.value)
+    return And(iff(pat_is_eof(p), u.is_('eof')), iff(pat_is_timeout(p), u.is_('timeout')),
+               Implies(Not(Or(u.is_('eof'), u.is_('timeout'))), val_ok))
+
+
+class PrepareLoop(LoopSpec):
+    """[prepare_pattern(p) for p in pattern_list]"""
+    def vars(self, v):
+        kind = 'b' if v.old.self.encoding is None else 's'
+        return {'_comp0': TSymList((('p', TPat(TStr(kind))),), True)}
+
+    def invariant(self, v):
+        kind = 'b' if v.old.self.encoding is None else 's'
+        pats, out, i = v.old.pattern_list, v.l._comp0, v.l._i100
+        return [('out-len', out.len == i),
+                ('C20:prefix-accepted', forall(0, i, lambda k: exact_acceptable(pats.get(k), kind))),
+                ('C20:prefix-is-image', forall(0, i, lambda k: exact_image_ok(out.get(k), pats.get(k), kind)))]
+
+    def variant(self, v):
+        return v.old.pattern_list.len - v.l._i100
+
+
+def as_listlike(x):
+    """an iterable that is not a string is the list form (expect_exact iterates whatever it is given)"""
+    if is_listlike(x) or x is None:
+        return x
+    if isinstance(x, (tuple, dict, set, frozenset)):
+        from harness.concrete import ListC
+        return ListC(list(x))
+    return x
+
+
+class ExpectExact(Contract):
+    """expect_exact(pattern_list, timeout, searchwindowsize): every accepted form reaches the exact searcher as the
+    same strings; anything else is rejected before any output is consumed."""
+    name = SB + '.expect_exact'
+    props = ('C01', 'C04', 'C05', 'C20')
+    union_params = ('pattern_list',)
+    comps = {0: PrepareLoop()}
+
+    def shape(self, b):
+        sp, kind = pattern_spawn(b)
+        form = b.choice('pattern_list', ['list', 'single'])
+        if form == 'single':
+            pl = b.union('pattern_list', pattern_alts(kind))
+        else:
+            pl = b.symlist('pattern_list', [('p', TUnion(pattern_alts(kind)))], scalar=True)
+        return dict(self=sp, pattern_list=pl, timeout=timeout_param(b), searchwindowsize=window_param(b), async_=b.const(False))
+
+    def requires(self, v):
+        return spawn_inv(v.a.self) + param_domains(v)
+
+    def instrument(self, args, g):
+        from .expect import ghost_clock
+        return ghost_clock('pexpect.expect', g)
+
+    outcomes = Expect.outcomes
+
+    def exits(self, v):
+        return ('EOF', 'TIMEOUT', 'OSError', 'TypeError', 'UnicodeEncodeError')
+
+    modifies = Expect.modifies
+    effects = Expect.effects
+
+    def ensures(self, v):
+        sp = v.old.self
+        kind = 'b' if sp.encoding is None else 's'
+        pats = as_listlike(v.old.pattern_list)
+        if v.raised in ('TypeError', 'UnicodeEncodeError'):
+            out = [('C20:rejected-before-any-output-is-consumed', untouched(v, sp, v.new.self))]
+            if v.raised == 'TypeError':
+                if is_listlike(pats):
+                    if getattr(v, 'concrete', False):
+                        bad = witness(v, 'bad', pats.len, lambda k: not exact_acceptable(pats.get(k), kind))
+                        out.append(('C20:typeerror-only-for-a-non-pattern', And(0 <= bad, bad < pats.len, Not(exact_acceptable(pats.get(bad), kind)))))
+                    else:
+                        i = v.l._i100      # the element being prepared when it raised
+                        out.append(('C20:typeerror-only-for-a-non-pattern', And(0 <= i, i < pats.len, Not(exact_acceptable(pats.get(i), kind)))))
+                else:
+                    out.append(('C20:typeerror-only-for-a-non-pattern', Not(exact_acceptable(pats, kind))))
+            return out
+        acc = forall(0, pats.len, lambda k: exact_acceptable(pats.get(k), kind)) if is_listlike(pats) else exact_acceptable(pats, kind)
+        return expect_outcome_post(v, sp, v.new.self, effective_timeout(sp, v.old.timeout), plist=ImageList(pats, kind)) + \
+            [('C20:accepted-only-patterns', acc)]
+
+
 def register(reg):
-    for c in (CoerceExpectString, CoerceExpectRe, CompilePatternList, Expect):
+    for c in (CoerceExpectString, CoerceExpectRe, CompilePatternList, Expect, ExpectExact):
         reg.add(c)
